@@ -680,6 +680,10 @@ impl FinishedSession {
     pub fn commit<T: HashAlgorithm>(self, nomt: &Nomt<T>) -> Result<(), anyhow::Error> {
         let _write_guard = self.take_global_guard.then(|| nomt.access_lock.write());
 
+        if nomt.store.is_poisoned() {
+            anyhow::bail!("Store is poisoned due to prior error");
+        }
+
         {
             let mut shared = nomt.shared.lock();
             if shared.root != self.prev_root {
@@ -696,7 +700,12 @@ impl FinishedSession {
         if let Some(rollback_delta) = self.rollback_delta {
             // UNWRAP: if rollback_delta is `Some`, then rollback must be also `Some`.
             let rollback = nomt.store.rollback().unwrap();
-            rollback.commit(rollback_delta)?;
+            if let Err(e) = rollback.commit(rollback_delta) {
+                // The changeset was accepted but cannot be carried through, and the rollback log
+                // may be left half-written: treat it like any other failed commit step.
+                nomt.store.poison();
+                return Err(e);
+            }
         }
 
         nomt.store.commit(
@@ -727,6 +736,10 @@ impl FinishedSession {
             return Ok(Some(self));
         }
 
+        if nomt.store.is_poisoned() {
+            anyhow::bail!("Store is poisoned due to prior error");
+        }
+
         // Check the changeset against the current root before touching the rollback log: a
         // rejected changeset must not leave its delta behind. The write guard is held, so the
         // root cannot change between this check and the update below.
@@ -744,7 +757,15 @@ impl FinishedSession {
         if let Some(rollback_delta) = self.rollback_delta {
             // UNWRAP: if rollback_delta is `Some`, then rollback must be also `Some`.
             let rollback = nomt.store.rollback().unwrap();
-            if let Some(delta) = rollback.commit_nonblocking(rollback_delta)? {
+            let maybe_delta = match rollback.commit_nonblocking(rollback_delta) {
+                Ok(maybe_delta) => maybe_delta,
+                Err(e) => {
+                    // See `commit`: a failed append leaves the log in an unknown state.
+                    nomt.store.poison();
+                    return Err(e);
+                }
+            };
+            if let Some(delta) = maybe_delta {
                 self.rollback_delta = Some(delta);
                 return Ok(Some(self));
             }
@@ -796,6 +817,10 @@ impl Overlay {
 
         let _write_guard = nomt.access_lock.write();
 
+        if nomt.store.is_poisoned() {
+            anyhow::bail!("Store is poisoned due to prior error");
+        }
+
         {
             let mut shared = nomt.shared.lock();
             if shared.root != self.prev_root() {
@@ -815,7 +840,12 @@ impl Overlay {
         if let Some(rollback_delta) = rollback_delta {
             // UNWRAP: if rollback_delta is `Some`, then rollback must be also `Some`.
             let rollback = nomt.store.rollback().unwrap();
-            rollback.commit(rollback_delta)?;
+            if let Err(e) = rollback.commit(rollback_delta) {
+                // The changeset was accepted but cannot be carried through, and the rollback log
+                // may be left half-written: treat it like any other failed commit step.
+                nomt.store.poison();
+                return Err(e);
+            }
         }
 
         nomt.store
@@ -855,6 +885,10 @@ impl Overlay {
             return Ok(Some(self));
         }
 
+        if nomt.store.is_poisoned() {
+            anyhow::bail!("Store is poisoned due to prior error");
+        }
+
         {
             let mut shared = nomt.shared.lock();
             if shared.root != self.prev_root() {
@@ -873,7 +907,12 @@ impl Overlay {
         if let Some(rollback_delta) = rollback_delta {
             // UNWRAP: if rollback_delta is `Some`, then rollback must be also `Some`.
             let rollback = nomt.store.rollback().unwrap();
-            rollback.commit(rollback_delta)?;
+            if let Err(e) = rollback.commit(rollback_delta) {
+                // The changeset was accepted but cannot be carried through, and the rollback log
+                // may be left half-written: treat it like any other failed commit step.
+                nomt.store.poison();
+                return Err(e);
+            }
         }
 
         nomt.store
